@@ -498,6 +498,8 @@ package priority
 
 //@ func (*Discipline).main
 //@   may-diverge
+//@   requires [C15] started-with-every-configured-priority-listed: forall k :: in(gPset, k) ==> in(pset(dsc.priorities, len(dsc.priorities)), k)
+//@   requires [C15] started-with-a-share-for-every-configured-priority: forall k :: in(gPset, k) ==> dsc.strategic[k] >= 1
 //@   requires [C02] SEQ2(dsc)
 //@   requires [*] WF(dsc)
 //@   requires [C05] SAT(dsc)
@@ -528,6 +530,8 @@ package priority
 //@   ensures [C05 C06] shares-sum: result3 == nil ==> msum(result2) == gH
 //@   ensures [C05 C06] shares-keys: result3 == nil ==> (forall k :: dom(result2, k) ==> in(pset(result1, len(result1)), k))
 //@   ensures [C15] every-configured-priority-has-a-share: result3 == nil ==> (forall a :: 0 <= a && a < len(result1) ==> result2[result1[a]] >= 1)
+//@   ensures [C15] every-configured-priority-is-listed: result3 == nil ==> (forall k :: in(gPset, k) ==> in(pset(result1, len(result1)), k))
+//@   ensures [C15] no-configured-priority-without-a-share: result3 == nil ==> (forall k :: in(gPset, k) ==> result2[k] >= 1)
 //@   ensures [C02 C07 C15] result3 == nil ==> !gDivErr
 //@   assume-arith append-len[3]
 //@   loop 0
@@ -535,6 +539,7 @@ package priority
 //@     invariant [*] forall k :: dom(inputs, k) <==> in($visited, k)
 //@     invariant [*] forall a :: 0 <= a && a < len(priorities) ==> (in($visited, priorities[a]) && in(gPset, priorities[a]))
 //@     invariant [*] forall a, b :: 0 <= a && a < b && b < len(priorities) ==> priorities[a] != priorities[b]
+//@     invariant [C15] forall k :: in($visited, k) ==> in(pset(priorities, len(priorities)), k)
 //@     invariant [* C02 C07] forall k :: dom(inputs, k) ==> !inputs[k].Drained
 //@     invariant [C05] forall k :: dom(inputs, k) ==> cap(inputs[k].Channel) != 0
 //@     invariant [*] msum(strategic) == 0
